@@ -255,7 +255,7 @@ def run(kind, frags, record=True):
 	o = {'calls': calls}
 	if err is None:
 		started = sm.message is not None and bool(getattr(sm, 'state', {}).get('startline'))
-		o['final'] = {'buf': bytes(sm.buffer).hex(), 'started': bool(started)}
+		o['final'] = {'buf': bytes(sm.buffer).hex(), 'started': bool(started), 'hdr_done': bool(started and sm.state.get('headers'))}
 	o['lf_mode'] = REC.lf_mode
 	o['raised_411'] = REC.raised_411
 	if record:
